@@ -14,6 +14,7 @@ import AnthemModel.Model.External
 import AnthemModel.Model.Files
 import AnthemModel.Model.Status
 import AnthemModel.Model.Print
+import AnthemModel.Model.TffParse
 import Driver.Search
 open Anthem
 
@@ -131,8 +132,26 @@ def respond (req : Sexp) : Sexp :=
     | _, _, _, _, _, _, _, _ => bad
   | .list [.atom "tptp_formula", f] =>
     match Formula.ofSexp f with
-    | some f => if f.tptpPanics then .list [.atom "panic"] else .str (tptpFormula f)
+    | some f =>
+      if f.tptpPanics then .list [.atom "panic"]
+      else
+        -- the text model must read back (TPTP reading rules) as the TFF tree `tr f`
+        let text := tptpFormula f
+        match TffParse.parse f.fcs text with
+        | some t =>
+          if TffParse.beq (TffParse.flat t) (TffParse.flat (tr f)) then .str text
+          else .list [.atom "parse-back-mismatch", .str text]
+        | none => .list [.atom "parse-back-failed", .str text]
     | none => bad
+  | .list [.atom "cex_tptp", f, .str text, seed, tries] =>
+    match Formula.ofSexp f, seed.asNat?, tries.asNat? with
+    | some f, some seed, some tries =>
+      match TffParse.parse f.fcs text with
+      | none => .list [.atom "unparsable"]
+      | some t =>
+        if TffParse.beq (TffParse.flat t) (TffParse.flat (tr f)) then .list [.atom "same-tree"]
+        else cexEquiv false f (TffParse.untr t) seed tries
+    | _, _, _ => bad
   | .list [.atom "strong_text", l, r, .atom dec, .atom dir, .atom rep, simp, brk, fuel] =>
     match Asp.programOfSexp l, Asp.programOfSexp r, Decomposition.ofName dec, Direction.ofName dir,
         FormulaRep.ofName rep, simp.asBool?, brk.asBool?, fuel.asNat? with
